@@ -397,7 +397,7 @@ static int refex_exec_core(struct xm *m, const struct xcmd *c, const char *(*fil
 		int i;
 		if (m->modified)
 			return 1;
-		if (!strcmp(c->arg, "true")) {		/* a filter that prints nothing: the lines go */
+		if (!strcmp(c->arg, "sed d")) {		/* a filter that reads its input and prints nothing: the lines go */
 			xm_splice(m, b, e + 1, "");
 			return 0;
 		}
